@@ -126,6 +126,29 @@ def oracleC03 (cfg : Cfg) (bytes : List Nat) (d : Dump) : List String :=
   (if d.nstates > 1 + cfg.forkLimit * jd then [s!"C03-threads:{d.nstates}>1+{cfg.forkLimit}*{jd}"] else []) ++
   (if d.queue ≠ 0 then ["C03-queue-not-drained"] else [])
 
+/-- minimum gas of the instruction decoded at each offset (0 for push data), from the bytes -/
+def gasAt (bytes : List Nat) : List Nat :=
+  match disasm bytes with
+  | .ok code => code.map minGas
+  | .error _ => []
+
+/-- C17: a path whose accumulated minimum gas exceeds the limit must surface `GasLimitExceeded`.
+A lower bound on what a finished state's thread was charged, read off its visit counts: every
+visited instruction is charged its minimum gas except (a) the JUMPIs at which an ancestor forked
+this thread (the child inherits the gas from before the JUMPI's charge) — so JUMPIs are left out
+altogether — and (b) a last instruction that returned `Err`; such an error is listed, except a
+tolerated jump kind in permissive mode (JUMP costs 8), so the largest visited cost is
+subtracted when any error is listed and 8 otherwise. -/
+def oracleC17gas (cfg : Cfg) (bytes : List Nat) (d : Dump) : List String :=
+  let g := gasAt bytes
+  let isJumpi := fun (i : Nat) => bytes.getD i 0 == 0x57 && !((pushDataMask bytes).getD i false)
+  let over := d.vis.any (fun v =>
+    let charged := (enumFrom 0 (v.zip g)).map (fun (i, (c, x)) => if isJumpi i then 0 else c * x)
+    let maxCost := ((v.zip g).map (fun (c, x) => if c > 0 then x else 0)).foldl max 0
+    let slack := if d.errs.isEmpty then 8 else maxCost
+    charged.sum > cfg.gasLimit + slack)
+  if over && !(d.errs.any (fun (_, n) => n == "GasLimitExceeded")) then ["C17-gas-exhaustion-not-surfaced"] else []
+
 /-- C17 (single run): errors are located inside the code; strict mode with errors fails. -/
 def oracleC17single (bytes : List Nat) (d : Dump) : List String :=
   (if d.errs.any (fun (l, _) => l ≥ bytes.length) then ["C17-location-outside-code"] else []) ++
@@ -220,7 +243,7 @@ def handle (payload impl : String) : String × String :=
         if impl.startsWith "PANIC" then "FAIL C01-panic:" ++ impl
         else match parseDump impl with
           | none => if impl.startsWith "disasm-err" || impl.startsWith "vm-new-err" then "ok" else "FAIL unparsable-impl-answer"
-          | some d => verdictOf (oracleC03 cfg bytes d ++ oracleC17single bytes d ++ oracleC08 cfg bytes d)
+          | some d => verdictOf (oracleC03 cfg bytes d ++ oracleC17single bytes d ++ oracleC17gas cfg bytes d ++ oracleC08 cfg bytes d)
       (runModel cfg bytes, verdict)
     | _, _ => ("bad-request", "ok")
   | _ => ("bad-request", "ok")
@@ -245,7 +268,8 @@ def handle2 (payload impl : String) : String × String :=
                  (if dp.errs ≠ expectedPermErrs then ["C17-permissive-errors:expected strict errors minus jump kinds"] else []) ++
                  (if ds.ok && !(dp.ok) then ["C17-strict-ok-permissive-fails"] else []) ++
                  (if dp.ok ≠ expectedPermErrs.isEmpty then ["C17-permissive-result-class"] else []) ++
-                 oracleC17single bytes ds ++ oracleC17single bytes dp)
+                 oracleC17single bytes ds ++ oracleC17single bytes dp ++
+                 oracleC17gas cfg bytes ds ++ oracleC17gas cfg bytes dp)
              | _, _ => if s.startsWith "disasm-err" then "ok" else "FAIL unparsable-impl-answer")
           | _ => "FAIL unparsable-impl-answer"
       (model, verdict)
